@@ -144,6 +144,26 @@ CLAIMS["C14"] = dict(
               "boolean configuration variables) of the real Python code",
     ref="3/C14")
 
+CLAIMS["C17"] = dict(
+    text="(i) The real Cache.__call__/_update_hash build the memoisation key "
+         "for two calls whose array arguments have SYMBOLIC raw bytes (dtype/"
+         "shape/contiguity/kind enumerated); with md5 injective on the "
+         "concatenated updates, the real dict lookup decides hit/miss under a "
+         "symbolic key equality and z3 proves 'hit => same arguments'. (ii) "
+         "One FIFO step from an arbitrary valid cache state with symbolic "
+         "MAX_SIZE. (iii) The real H5ScalarEvent/ChildScalar/"
+         "BasinProxyFeature access paths and the ignore_nan_inf wrapper over "
+         "a numpy shim with view/alias semantics: an in-place write to a "
+         "result must not change later reads. (iv) LazyContourList index "
+         "alignment for symbolic access sequences. (v) key of the file-stat "
+         "lru cache.",
+    note="Trusted: z3, symx, numpy shim aliasing model, md5 injectivity; "
+         "functools.lru_cache is modelled as a dict over all arguments. "
+         "Bounds as listed in the evidence.",
+    technique="symbolic execution of the real Python code objects + z3 (LIA "
+              "over symbolic bytes; aliasing via shared-storage shim)",
+    ref="3/C17")
+
 NOT_APPLICABLE = {
 }
 
